@@ -25,10 +25,14 @@ theorem quote_table_abs_roots_core : Generated.quoteAbsRoots.all (· == "core") 
 /-- no template writes a path relative to the user's crate or module (`crate::..`, `super::..`, `self::..`) -/
 theorem quote_table_no_relative_paths : Generated.quoteRelRoots = [] := by decide +kernel
 
-/-- templates that consist of a single identifier: beside what `litOK` admits, the two formatter methods that are spliced
-behind `__f.` (the model writes them through `dotM`) and the attribute path `derive_ex` the expander compares attributes
-with (not generated code) -/
-def knownSingles : List String := ["debug_struct", "debug_tuple", "derive_ex"]
+/-- no template calls anything in method syntax (`x.name(..)`, `x.#name(..)`): a method call is looked up among the
+traits in scope of the user's item as well, so it is a free name in disguise (until F31 the `Debug` builder was driven
+that way, and the hygiene predicate had waved `.name` through) -/
+theorem quote_table_no_method_calls : Generated.quoteMethods = [] := by decide +kernel
+
+/-- templates that consist of a single identifier: beside what `litOK` admits, the attribute path `derive_ex` the expander
+compares attributes with (not generated code) -/
+def knownSingles : List String := ["derive_ex"]
 theorem quote_table_singles_ok : Generated.quoteSingles.all (fun s => litOK s || knownSingles.contains s) = true := by
   decide +kernel
 
